@@ -94,6 +94,11 @@ pub fn eff_frac(f: Option<f64>) -> f64 {
 /// Independent bounds test. Returns Some((component index, excess)) for the first violated
 /// component, None when in bounds up to `tol` (so3 components get `tol_so3`).
 pub fn ref_bounds_violation(spec: &Spec, v: &[f64], tol: f64, tol_so3: f64) -> Option<(usize, f64)> {
+    ref_bounds_violation_opt(spec, v, tol, tol_so3, false)
+}
+/// `numerically`: an angle must lie in its interval as a number, not only modulo 2 pi (what
+/// `enforce_bounds` promises for its result).
+pub fn ref_bounds_violation_opt(spec: &Spec, v: &[f64], tol: f64, tol_so3: f64, numerically: bool) -> Option<(usize, f64)> {
     let mut o = 0;
     for (ci, c) in spec.comps.iter().enumerate() {
         let w = c.kind.width();
@@ -124,6 +129,9 @@ pub fn ref_bounds_violation(spec: &Spec, v: &[f64], tol: f64, tol_so3: f64) -> O
                 let mut best = f64::INFINITY;
                 // (states may carry un-normalised angles several turns away)
                 for k in [-4.0, -3.0, -2.0, -1.0, 0.0, 1.0, 2.0, 3.0, 4.0] {
+                    if numerically && k != 0.0 {
+                        continue;
+                    }
                     let y = a + k * TWO_PI;
                     let ex = (lo - y).max(y - hi);
                     if ex <= tol {
